@@ -752,9 +752,32 @@ func atomMatches(fn *Func, a *Atom, g guard) bool {
 		if c := bytesEqualAsCmp(info, e); c != nil {
 			e = c
 		}
+		// emptiness of a string spelled through its length: len(s) < 1, len(s) == 0 also read as s == ""
+		if be1, ok := e.(*ast.BinaryExpr); ok {
+			if se := stringEmptinessAsCmp(info, be1); se != nil {
+				if sameText(fn, cmpText(se), g.name) {
+					return a.Pol == g.pol
+				}
+				if sb, ok := se.(*ast.BinaryExpr); ok {
+					if pe := paramsAsArgs(fn, sb); pe != nil && sameText(fn, cmpText(pe), g.name) {
+						return a.Pol == g.pol
+					}
+				}
+			}
+		}
 		if be0, ok := e.(*ast.BinaryExpr); ok {
 			if sameText(fn, cmpText(e), g.name) {
 				return a.Pol == g.pol
+			}
+			// == and != are symmetric
+			if be0.Op == token.EQL || be0.Op == token.NEQ {
+				sw := &ast.BinaryExpr{X: be0.Y, Op: be0.Op, Y: be0.X}
+				if sameText(fn, cmpText(sw), g.name) {
+					return a.Pol == g.pol
+				}
+				if pe := paramsAsArgs(fn, sw); pe != nil && sameText(fn, cmpText(pe), g.name) {
+					return a.Pol == g.pol
+				}
 			}
 			// inside an extracted helper: parameters stand for the arguments every call site passes
 			if pe := paramsAsArgs(fn, be0); pe != nil && sameText(fn, cmpText(pe), g.name) {
@@ -767,6 +790,11 @@ func atomMatches(fn *Func, a *Atom, g guard) bool {
 			for _, alt := range inlinedVariants(fn, be0) {
 				if sameText(fn, cmpText(alt), g.name) {
 					return a.Pol == g.pol
+				}
+				if ab, ok := ast.Unparen(alt).(*ast.BinaryExpr); ok {
+					if se := stringEmptinessAsCmp(info, ab); se != nil && sameText(fn, cmpText(se), g.name) {
+						return a.Pol == g.pol
+					}
 				}
 			}
 			// integer comparisons up to ±1 rewriting and orientation: i+1 > n ≡ i >= n ≡ !(i < n) ≡ n <= i
@@ -1415,6 +1443,29 @@ func runRows(prop string) func(p *Prog, r *Report) {
 										allowed = true
 									}
 								}
+								// what makes a helper answer true, when the row names that helper's
+								// verdict as its condition, is that condition spelled out
+								if !allowed && a.From != nil {
+									if _, isFlag := ast.Unparen(a.From).(*ast.Ident); isFlag {
+										flag := &Atom{E: a.From, Pol: true}
+										for _, g := range rw.need {
+											if g.kind == gAny {
+												for _, sg := range g.sub {
+													if atomMatches(fx, flag, sg) {
+														allowed = true
+													}
+												}
+											} else if atomMatches(fx, flag, g) {
+												allowed = true
+											}
+										}
+										for _, ex := range rw.exact {
+											if sameText(fx, cmpText(a.From), ex) {
+												allowed = true
+											}
+										}
+									}
+								}
 								txt := cmpText(fx.viewExpr(a.E))
 								txtFolded := cmpText(constFold(fx, fx.viewExpr(a.E)))
 								txtInlined := cmpText(fx.InlineLocals(fx.viewExpr(a.E), 2))
@@ -1585,6 +1636,53 @@ func runRows(prop string) func(p *Prog, r *Report) {
 							}
 							return lit == nil
 						})
+						litFn := fn
+						if lit == nil {
+							// the literal is built by a helper whose result is emitted here
+							ast.Inspect(em, func(z ast.Node) bool {
+								id, ok := z.(*ast.Ident)
+								if !ok || lit != nil {
+									return lit == nil
+								}
+								o := fn.Info().ObjectOf(id)
+								if o == nil {
+									return true
+								}
+								for _, asn := range fn.Assignments(o) {
+									as, ok := asn.(*ast.AssignStmt)
+									if !ok || len(as.Rhs) != 1 {
+										continue
+									}
+									hc, ok := ast.Unparen(as.Rhs[0]).(*ast.CallExpr)
+									if !ok {
+										continue
+									}
+									hf := calleeOf(fn.Info(), hc)
+									if hf == nil {
+										continue
+									}
+									ht := p.FuncOf[hf]
+									if ht == nil || ht.Body == nil {
+										continue
+									}
+									ast.Inspect(ht.Body, func(y ast.Node) bool {
+										if ret, ok := y.(*ast.ReturnStmt); ok && len(ret.Results) > 0 && lit == nil {
+											r0 := ast.Unparen(ret.Results[0])
+											if u, ok := r0.(*ast.UnaryExpr); ok && u.Op == token.AND {
+												r0 = ast.Unparen(u.X)
+											}
+											if cl, ok := r0.(*ast.CompositeLit); ok && len(cl.Elts) > 0 {
+												if _, isKV := cl.Elts[0].(*ast.KeyValueExpr); isKV {
+													lit, litFn = cl, ht
+												}
+											}
+										}
+										return true
+									})
+								}
+								return true
+							})
+						}
 						var wrong []string
 						var fnames []string
 						for f := range rw.fieldIs {
@@ -1601,7 +1699,7 @@ func runRows(prop string) func(p *Prog, r *Report) {
 								wrong = append(wrong, f+" is not set (want "+want+")")
 								continue
 							}
-							if !sameText(fn, cmpText(got), want) && !sameText(fn, cmpText(fn.InlineLocals(got, 3)), want) {
+							if !sameText(litFn, cmpText(got), want) && !sameText(litFn, cmpText(litFn.InlineLocals(got, 3)), want) {
 								wrong = append(wrong, f+" is "+cmpText(got)+" (want "+want+")")
 							}
 						}
@@ -1613,7 +1711,7 @@ func runRows(prop string) func(p *Prog, r *Report) {
 					if rw.anySyntax {
 						gate := ""
 						for _, a := range fn.GuardsAt(em).AllAtoms() {
-							if a == nil || a.E == nil || a.Expanded {
+							if a == nil || a.E == nil || (a.Expanded && okFlagHelper(fn, a) == nil) {
 								continue
 							}
 							if g := nativeSyntaxGate(fn, a); g != "" {
@@ -1766,6 +1864,12 @@ func rowEmissions(fn *Func, rw row) []emHit {
 									if rs, ok := a.(*ast.RangeStmt); ok && rs.Value != nil {
 										if vid, ok := rs.Value.(*ast.Ident); ok && fn.Info().ObjectOf(vid) == o {
 											look(rs.X, depth-1)
+										}
+									}
+									// what a local was defined from (x := e; x, ok := pick(coll, …))
+									if as, ok := a.(*ast.AssignStmt); ok && len(fn.Assignments(o)) == 1 {
+										for _, rhs := range as.Rhs {
+											look(rhs, depth-1)
 										}
 									}
 								}
@@ -2261,6 +2365,42 @@ func atomMatchesEitherPol(fn *Func, a *Atom, g guard) bool {
 // enclosing if statement plus that condition's outcome on the branch's side.
 func guardsAtBranch(p *Prog, fn *Func, x ast.Stmt) *Formula {
 	for cur := p.Parent(x); cur != nil; cur = p.Parent(cur) {
+		// a case of a tagless switch: its own conditions hold, those of the cases before it do not
+		if cc, isCase := cur.(*ast.CaseClause); isCase {
+			if body, ok := p.Parent(cc).(*ast.BlockStmt); ok {
+				if sw, ok := p.Parent(body).(*ast.SwitchStmt); ok && sw.Tag == nil && sw.Init == nil {
+					var parts []*Formula
+					var head ast.Expr
+					for _, c := range sw.Body.List {
+						c2 := c.(*ast.CaseClause)
+						if head == nil && len(c2.List) > 0 {
+							head = c2.List[0]
+						}
+						if c2 == cc {
+							break
+						}
+						for _, e := range c2.List {
+							parts = append(parts, fn.expandHelperCalls(fn.expandOkFlags(fn.expandBoolVars(decompose(e, false, nil), 2), 1), 2))
+						}
+					}
+					if len(cc.List) > 0 {
+						var alts []*Formula
+						for _, e := range cc.List {
+							alts = append(alts, fn.expandHelperCalls(fn.expandOkFlags(fn.expandBoolVars(decompose(e, true, nil), 2), 1), 2))
+						}
+						if len(alts) == 1 {
+							parts = append(parts, alts[0])
+						} else {
+							parts = append(parts, fOr(alts...))
+						}
+					}
+					if head != nil {
+						parts = append([]*Formula{fn.GuardsAt(head)}, parts...)
+					}
+					return fAnd(parts...)
+				}
+			}
+		}
 		ifs, ok := cur.(*ast.IfStmt)
 		if !ok {
 			if _, isFn := cur.(*ast.FuncLit); isFn {
@@ -2758,6 +2898,34 @@ func bytesEqualAsCmp(info *types.Info, e ast.Expr) ast.Expr {
 			continue
 		}
 		return &ast.BinaryExpr{X: &ast.CallExpr{Fun: ast.NewIdent("string"), Args: []ast.Expr{call.Args[1-i]}}, Op: token.EQL, Y: lit}
+	}
+	return nil
+}
+
+// stringEmptinessAsCmp: len(s) == 0, len(s) < 1, len(s) <= 0 read as s == "" (and
+// len(s) != 0, len(s) > 0, len(s) >= 1 as s != "") for a string s; nil otherwise.
+func stringEmptinessAsCmp(info *types.Info, be *ast.BinaryExpr) ast.Expr {
+	call, ok := ast.Unparen(be.X).(*ast.CallExpr)
+	if !ok || !isLenCall(info, call) {
+		return nil
+	}
+	t := info.TypeOf(call.Args[0])
+	if t == nil {
+		return nil
+	}
+	if b, ok := t.Underlying().(*types.Basic); !ok || b.Info()&types.IsString == 0 {
+		return nil
+	}
+	c, ok := constInt(info, be.Y)
+	if !ok {
+		return nil
+	}
+	empty := &ast.BasicLit{Kind: token.STRING, Value: `""`}
+	switch {
+	case (be.Op == token.EQL && c == 0) || (be.Op == token.LSS && c == 1) || (be.Op == token.LEQ && c == 0):
+		return &ast.BinaryExpr{X: call.Args[0], Op: token.EQL, Y: empty}
+	case (be.Op == token.NEQ && c == 0) || (be.Op == token.GTR && c == 0) || (be.Op == token.GEQ && c == 1):
+		return &ast.BinaryExpr{X: call.Args[0], Op: token.NEQ, Y: empty}
 	}
 	return nil
 }
